@@ -7,6 +7,8 @@ R02b  no left recursion: on every path from the entry of a recursive grammar fun
       token is consumed first.
 R02c  every recursive cycle passes a depth guard (a comparison of a parser-owned counter with a bound whose failing edge
       cannot reach a recursive call); without it nesting depth is limited only by the thread's stack.
+R02f  every index / slice / drain site and unsigned subtraction reachable from the parser entry points is discharged by a derived
+      bounds fact (dominating comparison with len, iteration variable, non-empty test) or by an audited entry.
 R02d  explicit panics (panic!/unreachable!/assert!) reachable from LuaParser::parse and LineIndex::parse are discharged by
       R01b/R01a or the audited table.  (Indexing/unwrap sites of the parser are NOT claimed, see level_note.)
 """
@@ -66,7 +68,10 @@ def run(chk, F, tier):
     chk.rule("R02c", "every recursive grammar cycle passes a depth guard")
     chk.rule("R02d", "explicit panics reachable from the parser entry points are discharged")
     chk.assume("'roughly linear time' and allocation failure are not decided")
-    chk.assume("bump at TkEof is a no-op: termination at end of input relies on the loops' explicit TkEof tests, which are not separately checked")
+    chk.assume("R02f: five audited index sites (parse_trivia_tokens, previous_token_range) rest on the parser invariant 'bump() is never called "
+               "at TkEof' (token_index < tokens.len() at every bump), read from the grammar and probed but not proven by a rule")
+    chk.assume("termination at end of input relies on the loops' explicit TkEof tests (a bump at TkEof makes no progress and would index "
+               "past the token array), which are not separately checked")
     scope = {k: b for k, b in F.bodies.items() if k.startswith(SCOPE_PREFIX) and b.kind in ("fn", "closure") and "_rust_i18n" not in k}
     chk.floor("functions in termination scope", len(scope), 300)
     PR = progress.Progress(F, scope)
@@ -192,5 +197,16 @@ def run(chk, F, tier):
     chk.floor("explicit panic sites", n, 6)
     from rules import nesting
     nesting.check_pairing(chk, F, "R02e", "C02")
+    # R02f bounds / underflow sites reachable from the parser entry points
+    from rules import c12c
+    cg2 = callgraph.CallGraph(F)
+    reach = {x for x in cg2.reachable(entries) if x in F.bodies and "_rust_i18n" not in x}
+    # generic marker methods are called through `P: MarkerEventContainer`; include every body of the marker / parser modules
+    reach |= {k for k in F.bodies if k.startswith((P + "parser::", "<" + P + "parser::"))}
+    nb, _, _ = c12c.bounds_audit(chk, F, "R02f", "C02", "emmylua_parser", "the parser (functions reachable from LuaParser::parse / LineIndex::parse)",
+                                 "the parser panics", only=reach)
+    chk.floor("bounds-sensitive sites reachable from the parser entry points", nb, 40)
+    ns, _, _ = c12c.uint_sub_audit(chk, F, "R02f", "C02", "emmylua_parser", "the parser", "the parser panics", only=reach)
+    chk.floor("unsigned subtractions reachable from the parser entry points", ns, 8)
     chk.explanation = ("Progress summaries (must-consume) to a fixpoint, natural-loop cycle search avoiding progress blocks, SCCs of the "
                        "grammar call graph with left-recursion and depth-guard tests, audit of explicit panics.")
